@@ -12,7 +12,7 @@ mkdir -p .work/seedruns
 VERIF_REPO=$WT VERIF_EVIDENCE_DIR=$PWD/.work/seedruns/ev-$N ./check $P $TIER > .work/seedruns/$N-$P.log 2>&1
 rc=$?
 git -C /repo worktree remove --force $WT
-rm -f bin/vcheck*._tmp_seedrun_${N//-/_}_$P
+rm -f bin/vcheck*._tmp_seedrun_${N//-/_}_${P}_
 nv=$(grep -c '^VIOLATION' .work/seedruns/$N-$P.log)
 first=$(grep -m1 'kind=' .work/seedruns/$N-$P.log | cut -c1-260)
 echo "$N $P rc=$rc violations=$nv $first"
